@@ -1162,11 +1162,13 @@ def remap_by_types(
             t_node = self.generic_visit(node)
             assert isinstance(t_node, ast.Dict)
 
-            fields: List[Tuple[str, type]] = [
-                (ast.literal_eval(f), self.lookup_type(v))  # type: ignore
-                for f, v in zip(t_node.keys, t_node.values)
-            ]
             try:
+                # (a key that is only known when the query runs - `{e.name: e.pt}`,
+                # `{'a': 1, **e.rest}` - is no literal)
+                fields: List[Tuple[str, type]] = [
+                    (ast.literal_eval(f), self.lookup_type(v))  # type: ignore
+                    for f, v in zip(t_node.keys, t_node.values)
+                ]
                 # (a key written twice holds its last value)
                 dict_dataclass = _make_dict_dataclass(fields)
             except (TypeError, ValueError, SyntaxError):
@@ -1189,10 +1191,15 @@ def remap_by_types(
             if isinstance(t_node.value, ast.Dict):
                 key = t_node.attr
                 key_index = [
-                    e for e, k in enumerate(t_node.value.keys) if k.value == key  # type: ignore
+                    e
+                    for e, k in enumerate(t_node.value.keys)
+                    if isinstance(k, ast.Constant) and k.value == key
                 ]
                 if len(key_index) == 0:
                     if t_node.attr.lower() == "zip":
+                        return t_node
+                    if not all(isinstance(k, ast.Constant) for k in t_node.value.keys):
+                        # (keys that are only known when the query runs: nothing to say)
                         return t_node
                     raise ValueError(f"Key {key} not found in dict expression!!")
                 # (python keeps the last value of a key written twice)
